@@ -317,6 +317,30 @@ def apply_relations(v, t, roots, rel):
     return t
 
 
+def object_field_extents(v):
+    """(record, field) -> (extent term over the constructor's parameter symbols, [ctor parameter names]) for fields that the
+    single user constructor fills with a fresh array"""
+    out = {}
+    this0 = sym.idx(sym.sym("this"), ZERO)
+    for rname in v.records:
+        ctors = [f for f in v.defined() if f.get("record") == rname and f.get("kind") == "ctor" and not f.get("implicit")
+                 and not f.get("defaulted") and not f.get("deleted") and not f.get("copy")]
+        if len(ctors) != 1:
+            continue
+        eff, st, ex = run_function(v, ctors[0], hooks=Hooks())
+        arrays = local_arrays(eff)
+        p2f = {}
+        for x in flat(eff):
+            if x["e"] == "store" and x["op"] == "=" and x["lv"][0] == "fld" and x["lv"][1] == this0 and x["val"][0] == "sym":
+                p2f.setdefault(x["lv"], x["val"])
+        for x in flat(eff):
+            if x["e"] == "store" and x["op"] == "=" and x["lv"][0] == "fld" and x["lv"][1] == this0 and x["val"] in arrays:
+                ext = sym.subst(arrays[x["val"]][0], p2f)        # this->n written from param n: express over the parameters
+                if not any(sym.contains(ext, this0) for _ in [0]):
+                    out[(rname, x["lv"][2])] = (ext, [p["n"] for p in ctors[0].params])
+    return out
+
+
 def local_arrays(effs):
     """obj term -> (extent term in elements, description, line)"""
     out = {}
@@ -374,12 +398,31 @@ class Requirements:
                 need = sym.add(rng[1], I(1))
                 if own_terms(need):
                     req.setdefault(names.index(base[1]), []).append((need, "%s:%s" % (f.file, line), sym.show(it)))
+            elif base[0] == "fld" and base[1][0] == "idx" and base[1][2] == ZERO and base[1][1][0] == "sym" and base[1][1][1] in names:
+                # p->F[index]: a requirement on the array held in field F of the object passed as p
+                rng = index_range(it[2], loops)
+                if rng is None:
+                    continue
+                need = sym.add(rng[1], I(1))
+                if own_terms(need):
+                    req.setdefault((names.index(base[1][1][1]), base[2]), []).append((need, "%s:%s" % (f.file, line), sym.show(it)))
         for x, loops, guards in walk_eff(eff):
             if x["e"] == "call" and x.get("usr") in self.v.defs:
                 sub = self.of(x["usr"], depth + 1)
                 cal = self.v.defs[x["usr"]]
                 cnames = [p["n"] for p in cal.params]
                 for pi, lst in sub.items():
+                    if isinstance(pi, tuple):
+                        # field requirement of the callee: propagate when this function passes one of its own parameters through
+                        a = x["args"][pi[0]] if pi[0] < len(x["args"]) else None
+                        if a is not None and a[0] == "sym" and a[1] in names:
+                            m = {sym.sym(n): (x["args"][i] if i < len(x["args"]) and x["args"][i] is not None else ("unk", "arg"))
+                                 for i, n in enumerate(cnames)}
+                            for need, where, detail in lst:
+                                rng = index_range(sym.subst(need, m), loops)
+                                if rng is not None and own_terms(rng[1]):
+                                    req.setdefault((names.index(a[1]), pi[1]), []).append((rng[1], where, "via %s: %s" % (cal.name, detail)))
+                        continue
                     a = x["args"][pi] if pi < len(x["args"]) else None
                     base, off = split_base_offset(a)
                     if base is None or base[0] != "sym" or base[1] not in names:
@@ -470,6 +513,8 @@ def check_function(v, fn, reqs, rel=None):
         sub = reqs.of(x["usr"])
         cnames = [p["n"] for p in cal.params]
         for pi, lst in sub.items():
+            if isinstance(pi, tuple):
+                continue
             a0 = x["args"][pi] if pi < len(x["args"]) else None
             a, off = split_base_offset(a0)
             if a not in arrays:
